@@ -22,6 +22,32 @@ NPROC = min(int(os.environ.get('VERIF_WORKERS', '16')), os.cpu_count() or 1)
 TLA_JAR = '/opt/veriftools/tla/tla2tools.jar:/opt/veriftools/tla/CommunityModules-deps.jar'
 
 
+class CallTimeout(Exception):
+    """A call into the code under test did not return in time (an unbounded loop is an answer, and a wrong one)."""
+
+
+class guard:
+    """with core.guard(seconds): ...  raises CallTimeout inside the block (main thread only)."""
+
+    def __init__(self, seconds=10.0):
+        self.seconds = seconds
+
+    def _fire(self, signum, frame):
+        raise CallTimeout('no answer within %.0fs' % self.seconds)
+
+    def __enter__(self):
+        import signal
+        self._old = signal.signal(signal.SIGALRM, self._fire)
+        signal.setitimer(signal.ITIMER_REAL, self.seconds)
+        return self
+
+    def __exit__(self, *a):
+        import signal
+        signal.setitimer(signal.ITIMER_REAL, 0)
+        signal.signal(signal.SIGALRM, self._old)
+        return False
+
+
 class MachineryError(Exception):
     """Something in the verification machinery failed (exit 2, never a violation)."""
 
